@@ -111,6 +111,7 @@ def part_a(ck, replay):
         evals = changed = errs = with_pkgs = 0
         slow = 0
         unconfirmed = []
+        abandoned = 0
         per_unit = {}
         for o in out:
             if "harness_fatal" in o:
@@ -121,6 +122,7 @@ def part_a(ck, replay):
             if o.get("summary"):
                 evals += o["n"]; changed += o["changed"]; errs += o["errs"]; with_pkgs += o["with_pkgs"]; slow += len(o.get("slow") or [])
                 per_unit[o["u"]] = per_unit.get(o["u"], 0) + o["n"]
+                abandoned += o.get("abandoned", 0)
             elif o.get("finding"):
                 findings.append(o)
             elif o.get("not_run"):
@@ -192,6 +194,8 @@ def part_a(ck, replay):
         if unconfirmed:
             ck.cov["a_slow_unconfirmed"] = unconfirmed[:50]
             ck.cov["not_explored"].append("(a) %d evaluations ran into the 10 s limit after their extractor had already used its 3 confirmations (100 s each); they are listed, not judged" % len(unconfirmed))
+        if abandoned:
+            ck.cov["not_explored"].append("(a) %d evaluations of extractors that had already hung 12 times in this run were not made" % abandoned)
         if not_run:
             ck.cov["not_explored"].append("(a) %d of the jobs were not started before the time budget of the tier ran out" % not_run)
         for cid, n in (meta.get("skipped_known_class") or {}).items():
